@@ -122,7 +122,7 @@ def run_case(ctx, case, cfgs_per_obj=1):
     for obj in case.objs:
         ofp = bc.obj_fp(model, obj)
         for _ in range(cfgs_per_obj):
-            cfg = bc.gen_config(ctx, model, case.loaded, obj, allow_default_ns=case.default_ns)
+            cfg = bc.gen_config(ctx, model, case.loaded, obj, allow_default_ns=case.default_ns, indent_mixed=True)
             ctx.feature(f"cfg:indent={cfg['indent']!r}", f"cfg:decl={cfg['xml_declaration']}", f"cfg:ida={cfg['ignore_default_attributes']}", f"cfg:ns_map={'none' if cfg['ns_map'] is None else ('default' if cfg['ns_map'] and cfg['ns_map'][0][0] == '' else 'prefixes')}")
             for writer in bc.WRITERS:
                 for handler in bc.HANDLERS:
